@@ -33,6 +33,9 @@ TRUSTED = [
     "parser covers hex digits, hyphens, braces, urn:/uuid: prefixes only (int(x,16) extras such as sign, 0x, '_', "
     "blanks are not modelled; they never occur in a file written by persist); bytes.fromhex's tolerance of blanks likewise",
     "harness/ref/pairings.py list decoder, harness generators; states are generated through the C06 request path",
+    "files written by the implementation are opaque to the oracle (state before save == state after load + observables); "
+    "legacy / respelled documents are authored by the harness in the historical format of the snapshot release (str(UUID) keys, "
+    "hex strings, {\"permissions\": n}); the file-tree comparison with the model's document is correspondence only",
     "multi-save stream: one real driver per history, driver.async_persist replaced by a synchronous call of the real "
     "driver.persist; the model side of that stream is persist/load of the in-memory state at each save (C14_history_roundtrip); "
     "whether and when the driver writes the file is otherwise C15's concern",
@@ -48,6 +51,8 @@ def build_state(spec: Dict[str, Any]) -> c06.Real:
     """Run the history of `spec` on a fresh real driver and set config number / hash."""
     real = c06.Real()
     for op in spec["ops"]:
+        if op["k"] == "restart":  # C06 histories may restart; a state case saves and reloads once, at its end
+            continue
         if op["k"] == "setup":
             try:
                 real.driver.pair(bytes.fromhex(op["id"]), bytes.fromhex(op["key"]), b"\x01")
@@ -178,10 +183,34 @@ def run_state_case(ctx: Optional[Ctx], spec: Dict[str, Any], idx: int = 0):
         real.close()
 
 
-def run_doc_case(docp: Dict[str, Any], kind: str = "damaged"):
-    """A hand-made (legacy / respelled / damaged) document: write it, load it with the real code.
-    `kind` says how it was derived from a really persisted file: "legacy" and "current" documents
-    differ from one only by missing optional members / respelled uuid keys, so they must load."""
+def minimise_state_spec(spec: Dict[str, Any], sig: str, idx: int) -> Dict[str, Any]:
+    """Shrink the history (and the verifier list) of a failing state case; keeps the signature."""
+    def fails(sp):
+        try:
+            f = run_state_case(None, sp, idx)[2]
+            return f is not None and f[0] == sig
+        except Exception:  # noqa: BLE001
+            return False
+
+    best = dict(spec)
+    for cand in ({**best, "verifiers": []},):
+        if best.get("verifiers") and fails(cand):
+            best = cand
+    if len(best["ops"]) > 1:
+        ops = c06.delta_min(best["ops"], lambda o: fails({**best, "ops": o}), max_steps=120)
+        if fails({**best, "ops": ops}):
+            best = {**best, "ops": ops}
+    if best["ops"] and fails({**best, "ops": []}):
+        best = {**best, "ops": []}
+    return best
+
+
+def run_doc_case(docp: Dict[str, Any], kind: str = "damaged", expected: Optional[Dict[str, Any]] = None):
+    """A document AUTHORED BY THE HARNESS in the documented historical format (hex strings, str(UUID)
+    keys; optional members absent as older releases wrote them): write it, load it with the real code.
+    `kind`: "legacy" (no client_properties) and "current" documents are well-formed and must load;
+    `expected` is the state they must load to, computed from the harness's own knowledge of what it
+    put into the document (dict_view shape) -- the file is never re-parsed to obtain it."""
     holder = c06.Real()
     try:
         with open(holder.path, "w", encoding="utf8") as fh:
@@ -206,36 +235,75 @@ def run_doc_case(docp: Dict[str, Any], kind: str = "damaged"):
                 fail = ("C14:legacy-not-admin", f"a state file without client_properties loaded with {len(bad)} of {len(admins)} controllers not admin")
             if "client_properties" not in docp and any(p != 1 for _, p in loaded["props"]):
                 fail = ("C14:legacy-not-admin", "a state file without client_properties loaded with a permission entry other than 1")
-            if fail is None and kind in ("legacy", "current"):
-                exp, got = expected_from_doc(docp), dict_view(loaded)
-                diff = [f for f in exp if exp[f] != got[f]]
+            if fail is None and kind in ("legacy", "current") and expected is not None:
+                got = dict_view(loaded)
+                diff = [f for f in expected if expected[f] != got.get(f)]
                 if diff:
-                    absent = [m for m in ("client_properties", "client_uuid_to_bytes", "accessories_hash") if m not in docp]
+                    absent = [m for m in OPTIONAL_MEMBERS if m not in docp]
                     fail = (("C14:legacy-field-differs:" if kind == "legacy" else "C14:document-field-differs:") + diff[0],
-                            f"a well-formed state file without {absent or 'no member'} ({len(docp['paired_clients'])} controllers) loaded with "
-                            f"{diff} different from what the file says (stored permissions / keys / identity must be kept)")
+                            f"a well-formed state file in the historical format without {absent or 'no member'} ({len(docp['paired_clients'])} controllers) "
+                            f"loaded with {diff} different from what was put into it (stored permissions / keys / identifier bytes / identity must be kept)")
         return {"layer": "encoder", "op": "load", "doc": docp}, impl, fail
     finally:
         holder.close()
 
 
-def expected_from_doc(d: Dict[str, Any]) -> Dict[str, Any]:
-    """What a well-formed document must load to, read off the document with uuid.UUID / bytes.fromhex
-    only (no pyhap encoder, no model): identity members as written; every paired_clients entry with its
-    key; stored permissions if the member exists, else permission 1 for every paired controller; stored
-    identifier bytes if the member exists, else none. In the dict_view shape."""
-    paired: Dict[str, str] = {}
-    for k, v in d["paired_clients"]:
-        paired[str(uuidlib.UUID(k).int)] = bytes.fromhex(v).hex()
-    if d.get("client_properties") is not None:
-        props = {str(uuidlib.UUID(k).int): json.dumps(v["permissions"]) for k, v in d["client_properties"]}
-    else:
-        props = {u: json.dumps(1) for u in paired}
-    u2b = {str(uuidlib.UUID(k).int): bytes.fromhex(v).hex() for k, v in (d.get("client_uuid_to_bytes") or [])}
-    u2b = {u: b for u, b in u2b.items() if u in paired}
-    return {"mac": d["mac"], "config_version": d["config_version"], "accessories_hash": d.get("accessories_hash"),
-            "private_key": d["private_key"].lower(), "public_key": d["public_key"].lower(),
-            "paired_clients": paired, "client_properties": props, "uuid_to_bytes": u2b}
+OPTIONAL_MEMBERS = ("client_properties", "client_uuid_to_bytes", "accessories_hash")
+
+
+def author_doc(st: Dict[str, Any], absent=()) -> Dict[str, Any]:
+    """The state file of a state description `st` (full_state shape: the harness's own construction or a
+    snapshot of the public State maps) in the DOCUMENTED HISTORICAL FORMAT, written by the harness itself:
+    keys str(UUID), key / identifier bytes as hex strings, permissions as {"permissions": n}; `absent`
+    members are left out as releases before permissions / identifier bytes / the hash did."""
+    def name(u):
+        return str(uuidlib.UUID(int=int(u)))
+
+    d = {
+        "mac": st["mac"], "config_version": st["config_version"],
+        "paired_clients": [[name(u), k] for u, k in st["paired"]],
+        "client_properties": [[name(u), {"permissions": p}] for u, p in st["props"]],
+        "accessories_hash": st["accessories_hash"],
+        "client_uuid_to_bytes": [[name(u), b] for u, b in st["u2b"]],
+        "private_key": st["private_key"], "public_key": st["public_key"],
+    }
+    return {k: v for k, v in d.items() if k not in absent}
+
+
+def expected_view(st: Dict[str, Any], absent=()) -> Dict[str, Any]:
+    """What author_doc(st, absent) must load to (dict_view shape), from `st` alone."""
+    e = dict_view(st)
+    if "client_properties" in absent:
+        e["client_properties"] = {u: json.dumps(1) for u in e["paired_clients"]}
+    if "client_uuid_to_bytes" in absent:
+        e["uuid_to_bytes"] = {}
+    if "accessories_hash" in absent:
+        e["accessories_hash"] = None
+    return e
+
+
+def authored_state(rng, n: int, perms=None) -> Dict[str, Any]:
+    """A state description made up by the harness (no pyhap involved): identity + n controllers."""
+    from cryptography.hazmat.primitives import serialization as ser
+    from cryptography.hazmat.primitives.asymmetric import ed25519
+
+    sk = ed25519.Ed25519PrivateKey.generate()
+    us = []
+    while len(us) < n:
+        u = rng.getrandbits(128)
+        if u not in us:
+            us.append(u)
+    perms = perms or [1, 0, 3, 128, 0, 255, 2, 129]
+    return {
+        "mac": ":".join(f"{rng.randrange(256):02X}" for _ in range(6)),
+        "config_version": rng.choice([1, 2, 65535, rng.randrange(1, MAXCV + 1)]),
+        "accessories_hash": rng.choice([None, "ab" * 32, hx(c06.key_of(rng))]),
+        "private_key": hx(sk.private_bytes(ser.Encoding.Raw, ser.PrivateFormat.Raw, ser.NoEncryption())),
+        "public_key": hx(sk.public_key().public_bytes(ser.Encoding.Raw, ser.PublicFormat.Raw)),
+        "paired": [[str(u), hx(c06.key_of(rng))] for u in us],
+        "props": [[str(u), perms[i % len(perms)]] for i, u in enumerate(us)],
+        "u2b": [[str(u), hx(c06.spell(rng, u, i % c06.N_SPELL if n <= c06.N_SPELL else None))] for i, u in enumerate(us)],
+    }
 
 
 def doc_to_json(docp: Dict[str, Any]) -> Dict[str, Any]:
@@ -273,8 +341,10 @@ def gen_specs(ctx: Ctx) -> List[Dict[str, Any]]:
     for base in range(0, 256, 64):
         ops = [sA] + [c06.req(A, c06.add_body(c06.spell(rng, A + 1 + p), c06.key_of(rng), bytes([p]))) for p in range(base, base + 64)]
         specs.append(spec(ops))
-    for how in range(8):
-        specs.append(spec([c06.setup(c06.spell(rng, A, how), ka), c06.req(A, c06.add_body(c06.spell(rng, A + 7, (how + 2) % 8), c06.key_of(rng), b"\x00"))]))
+    for how in range(c06.N_SPELL):  # every spelling family, for plain controllers and for ones that really pair-verify
+        sp = spec([c06.setup(c06.spell(rng, A, how), ka), c06.req(A, c06.add_body(c06.spell(rng, A + 7, (how + 2) % c06.N_SPELL), c06.key_of(rng), b"\x00"))])
+        sp["verifiers"] = [{"id": hx(c06.spell(rng, A + 9 + how, how)), "seed": hx(c06.key_of(rng)), "perm": how % 2}]
+        specs.append(sp)
     for u in c06.EDGE_UUIDS:
         specs.append(spec([c06.setup(c06.spell(rng, u), ka), c06.req(u, c06.add_body(c06.spell(rng, u ^ 1), c06.key_of(rng, 0), b"\x03"))]))
     for odd in c06.ODD_IDS:  # identifiers only int(x, 16) understands: kept verbatim in uuid_to_bytes
@@ -314,106 +384,89 @@ def respell_other(rng, k: str) -> str:
     return canon
 
 
-def derive_doc(rng, doc):
-    """Turn a really persisted document into a legacy / respelled / damaged one."""
+def derive_doc(rng, st):
+    """A legacy / respelled / damaged document authored from the state description `st`, with the state
+    it must load to (None where nothing is demanded). Returns (doc, kind, expected)."""
     mode = rng.random()
-    d = dict(doc)
     kind = "legacy" if mode < 0.55 else "current" if mode < 0.75 else "damaged" if mode < 0.9 else "current"
     if mode < 0.55:  # before permissions were stored
-        d.pop("client_properties", None)
-        if rng.random() < 0.5:
-            d.pop("client_uuid_to_bytes", None)
-        if rng.random() < 0.3:
-            d.pop("accessories_hash", None)
+        absent = ["client_properties"] + (["client_uuid_to_bytes"] if rng.random() < 0.5 else []) + (["accessories_hash"] if rng.random() < 0.3 else [])
+        d, exp = author_doc(st, absent), expected_view(st, absent)
         if rng.random() < 0.5:
             d["paired_clients"] = [[key_spell(rng, k), v.upper() if rng.random() < 0.3 else v] for k, v in d["paired_clients"]]
-        if rng.random() < 0.15 and d["paired_clients"]:  # the same controller under two spellings
+        if rng.random() < 0.15 and d["paired_clients"]:  # the same controller under two spellings: the later value wins
             k, v = d["paired_clients"][0]
             d["paired_clients"] = d["paired_clients"] + [[respell_other(rng, k), "00" + v]]
-    elif mode < 0.75:  # present-day file, keys respelled / maps reordered independently
+            exp["paired_clients"][str(uuidlib.UUID(k).int)] = "00" + v.lower()
+        return d, kind, exp
+    if mode < 0.75:  # present-day file, keys respelled / maps reordered independently
+        absent = ["client_uuid_to_bytes"] if rng.random() < 0.5 else []
+        d, exp = author_doc(st, absent), expected_view(st, absent)
         d["client_properties"] = [[key_spell(rng, k), v] for k, v in reversed(d["client_properties"])]
-        if rng.random() < 0.5:
-            d.pop("client_uuid_to_bytes", None)
-    elif mode < 0.9:  # damaged files
-        dmg = rng.randrange(6)
-        if dmg == 0:
-            d.pop("mac", None)
-        elif dmg == 1:
-            d["private_key"] = d["private_key"][:-2]
-        elif dmg == 2:
-            d["public_key"] = "zz" + d["public_key"][2:]
-        elif dmg == 3 and d["paired_clients"]:
-            d["paired_clients"] = [["not-a-uuid", d["paired_clients"][0][1]]] + d["paired_clients"][1:]
-        elif dmg == 4 and d["paired_clients"]:
-            d["paired_clients"] = [[d["paired_clients"][0][0], "abc"]] + d["paired_clients"][1:]
-        else:
-            d.pop("config_version", None)
-    return d, kind
-
-
-OPTIONAL_MEMBERS = ("client_properties", "client_uuid_to_bytes", "accessories_hash")
+        return d, kind, exp
+    d = author_doc(st)
+    if mode >= 0.9:
+        return d, kind, expected_view(st)
+    dmg = rng.randrange(6)  # damaged files: nothing is demanded, correspondence only
+    if dmg == 0:
+        d.pop("mac", None)
+    elif dmg == 1:
+        d["private_key"] = d["private_key"][:-2]
+    elif dmg == 2:
+        d["public_key"] = "zz" + d["public_key"][2:]
+    elif dmg == 3 and d["paired_clients"]:
+        d["paired_clients"] = [["not-a-uuid", d["paired_clients"][0][1]]] + d["paired_clients"][1:]
+    elif dmg == 4 and d["paired_clients"]:
+        d["paired_clients"] = [[d["paired_clients"][0][0], "abc"]] + d["paired_clients"][1:]
+    else:
+        d.pop("config_version", None)
+    return d, kind, None
 
 
 def generation_docs(ctx: Ctx):
-    """Every combination of members that older releases did not write yet, for 0 / 1 / 2 / 6 controllers
-    with mixed permissions; plus identifier bytes recorded for only some controllers (partial back-fill)
-    and permissions stored for only some (hand-edited: nothing is demanded, correspondence only)."""
+    """Every combination of members that older releases did not write yet, for 0 / 1 / 2 / 6 / 12 controllers
+    with mixed permissions and every identifier spelling; plus identifier bytes recorded for only some
+    controllers (partial back-fill) and permissions stored for only some (hand-edited: nothing is demanded,
+    correspondence only). All authored by the harness from its own state descriptions."""
     rng = ctx.rng
     docs = []
-    for n in (0, 1, 2, 6):
-        real = c06.Real()
-        try:
-            for i in range(n):
-                real.driver.pair(c06.spell(rng, rng.getrandbits(128)), c06.key_of(rng), bytes([[1, 0, 3, 128, 0, 255][i % 6]]))
-            real.state.config_version = rng.choice([1, 2, 65535, rng.randrange(1, MAXCV + 1)])
-            real.state.accessories_hash = rng.choice([None, "ab" * 32])
-            real.driver.persist()
-            doc = real.file_doc()
-        finally:
-            real.close()
+    for n in (0, 1, 2, 6, 12):
+        st = authored_state(rng, n)
         for mask in range(8):
-            d = {k: v for k, v in doc.items() if not (k in OPTIONAL_MEMBERS and mask >> OPTIONAL_MEMBERS.index(k) & 1)}
-            docs.append((d, "legacy" if "client_properties" not in d else "current"))
+            absent = [m for j, m in enumerate(OPTIONAL_MEMBERS) if mask >> j & 1]
+            docs.append((author_doc(st, absent), "legacy" if "client_properties" in absent else "current", expected_view(st, absent)))
         if n >= 2:
-            for drop_props in (False, True):  # identifier bytes for the first controller only
-                d = dict(doc)
-                d["client_uuid_to_bytes"] = doc["client_uuid_to_bytes"][:1]
-                if drop_props:
-                    d.pop("client_properties")
-                docs.append((d, "legacy" if drop_props else "current"))
-                d2 = dict(d)
-                d2["client_uuid_to_bytes"] = doc["client_uuid_to_bytes"][1:]
-                docs.append((d2, "legacy" if drop_props else "current"))
-            d = dict(doc)
-            d["client_properties"] = doc["client_properties"][1:]
-            docs.append((d, "hand-edited"))
+            for drop_props in (False, True):  # identifier bytes for some controllers only
+                for part in (st["u2b"][:1], st["u2b"][1:]):
+                    absent = ["client_properties"] if drop_props else []
+                    d, exp = author_doc(st, absent), expected_view(st, absent)
+                    d["client_uuid_to_bytes"] = [[str(uuidlib.UUID(int=int(u))), b] for u, b in part]
+                    exp["uuid_to_bytes"] = {u: b for u, b in part}
+                    docs.append((d, "legacy" if drop_props else "current", exp))
+            d = author_doc(st)
+            d["client_properties"] = d["client_properties"][1:]
+            docs.append((d, "hand-edited", None))
     return docs
 
 
-def gen_docs(ctx: Ctx) -> List[Dict[str, Any]]:
-    """Legacy and odd documents derived from really persisted ones."""
+def gen_docs(ctx: Ctx):
+    """(document, kind, expected) triples: the generation matrix, then documents authored from the
+    in-memory states of random C06 histories (snapshots of the public State maps, not of any file)."""
     rng = ctx.rng
     docs = generation_docs(ctx)
     for i in range(ctx.n(240, 2500)):
-        ops = c06.random_script(ctx) if i % 3 else [c06.setup(c06.spell(rng, rng.getrandbits(128), 1), c06.key_of(rng))] + [
-            c06.req(None, "", False)]
-        real = build_state({"ops": ops, "config_version": rng.randrange(1, MAXCV + 1), "accessories_hash": rng.choice([None, "ab" * 16])})
-        try:
-            if i % 3 == 0:  # a few more controllers, added directly
-                for _ in range(rng.randrange(0, 5)):
-                    real.driver.pair(c06.spell(rng, rng.getrandbits(128)), c06.key_of(rng), bytes([rng.randrange(256)]))
-            real.driver.persist()
-            doc = real.file_doc()
-        finally:
-            real.close()
-        try:
-            d, kind = derive_doc(rng, doc)
-        except Exception:  # noqa: BLE001  (the saved file does not have the expected members: the state cases report that)
-            ctx.stats.hit("outcome", "doc/underivable-from-saved-file")
-            continue
-        docs.append((d, kind))
+        if i % 3 == 0:
+            st = authored_state(rng, rng.randrange(0, 6), perms=[rng.randrange(256) for _ in range(6)])
+        else:
+            real = build_state({"ops": c06.random_script(ctx), "config_version": rng.randrange(1, MAXCV + 1), "accessories_hash": rng.choice([None, "ab" * 16])})
+            try:
+                st = full_state(real)
+            finally:
+                real.close()
+            if any(not isinstance(p, int) for _, p in st["props"]):
+                continue
+        docs.append(derive_doc(rng, st))
     return docs
-
 
 
 # ----------------------------------------------------------------------------- multi-save histories
@@ -443,6 +496,7 @@ def run_history(ops: List[Dict[str, Any]], collect: bool = True):
         for i, op in enumerate(ops):
             st = real.state
             calls0 = real.persist_calls
+            sig0 = real.file_sig()
             saved = False
             k = op["k"]
             admin = next((u for u in st.paired_clients if st.is_admin(u)), None)
@@ -491,12 +545,10 @@ def run_history(ops: List[Dict[str, Any]], collect: bool = True):
                         expect["uuid_to_bytes"] = {}
                     if "accessories_hash" in op["members"]:
                         expect["accessories_hash"] = None
-                    with open(real.path, "r", encoding="utf8") as fh:
-                        tree = json.load(fh)
-                    for m in op["members"]:
-                        tree.pop(m, None)
+                    # the harness authors that file itself, in the documented historical format, from the in-memory
+                    # state (public State maps); the file the implementation wrote is not edited or re-read
                     with open(real.path, "w", encoding="utf8") as fh:
-                        json.dump(tree, fh)
+                        json.dump(doc_to_json(author_doc(full_state(real), op["members"])), fh)
                 try:
                     nxt = c06.Real(with_accessory=True, state_file_from=real.path)
                 except Exception as ex:  # noqa: BLE001
@@ -515,7 +567,7 @@ def run_history(ops: List[Dict[str, Any]], collect: bool = True):
                         fail = ("C14:restart-state-differs:" + diff[0], f"restart at step {i}" + (f" from a file without {stripped}" if stripped else "")
                                 + f": the reloaded {diff} differ from the state before the restart", i)
                     break
-            saved = saved or real.persist_calls > calls0
+            saved = saved or real.persist_calls > calls0 or (k not in ("restart", "strip") and real.file_sig() != sig0)
             trace.append([k, saved, len(real.state.paired_clients), len(real.state.uuid_to_bytes)])
             if not saved:
                 continue
@@ -593,6 +645,12 @@ def boundary_histories(ctx: Ctx) -> List[List[Dict[str, Any]]]:
         # legacy start: pair-verify back-fills the identifier bytes and saves
         out.append([h_pair(A, 1), h_add(B, 0), {"k": "strip", "members": members}, vB, vA, {"k": "restart"}, h_add(B, 1), vB])
         out.append([h_pair(A, 1), {"k": "strip", "members": members}, vA, h_add(B, 0), {"k": "strip", "members": members}, vB, vB])
+    # every identifier spelling family through save / restart / list / pair-verify / re-add
+    for how in range(c06.N_SPELL):
+        S = {"id": c06.spell(rng, rng.getrandbits(128), how), "seed": c06.key_of(rng)}
+        vS = {"k": "verify", "id": hx(S["id"]), "seed": hx(S["seed"])}
+        out.append([h_pair(A, 1), h_add(S, how % 2), {"k": "restart"}, vS, h_add(S, 1 - how % 2), {"k": "restart"}, vS])
+        out.append([h_pair(S, 1), {"k": "restart"}, vS, {"k": "strip", "members": ["client_properties"]}, vS, {"k": "config"}])
     # the spelling of the identifier changes, nothing else; key changes, nothing else
     B2 = {"id": B["id"].swapcase(), "seed": B["seed"]}
     out.append([h_pair(A, 1), h_add(B, 0), h_add(B2, 0), h_add(B, 0), {"k": "restart"}, h_add(B2, 0)])
@@ -630,7 +688,11 @@ def run_histories(ctx: Ctx):
                     "legacy), file checked after every completed save")
     all_lines, all_impls = [], []
     for ops in hs:
-        lines, impls, fail, trace = run_history(ops)
+        try:
+            lines, impls, fail, trace = run_history(ops)
+        except Exception as ex:  # noqa: BLE001
+            _observed_exception(ctx, "history", {"ops": [o["k"] for o in ops]}, ex)
+            continue
         all_lines += lines
         all_impls += impls
         if fail:
@@ -666,21 +728,32 @@ def run(ctx: Ctx):
     st = ctx.stats
     st.rule = (
         "state cases: a C06 history run on the real code, a configuration number (edges 1/65535 and random) and a database "
-        "hash (None/''/hex/non-ASCII), saved and reloaded by the real driver; document cases: really persisted files turned "
-        "into legacy files (no client_properties / client_uuid_to_bytes / accessories_hash), respelled keys, duplicate "
-        "controllers, damaged files. Non-trivial: at least one controller is stored, or the document is legacy/damaged. "
+        "hash (None/''/hex/non-ASCII), saved and reloaded by the real driver (the file the implementation wrote is opaque to the "
+        "oracle: state before save == state after load, list-pairings, admin test, real pair-verify); document cases: files "
+        "AUTHORED BY THE HARNESS in the documented historical format from its own state descriptions (every combination of absent "
+        "client_properties / client_uuid_to_bytes / accessories_hash, partial identifier bytes, respelled keys, duplicate "
+        "controllers, damaged files), expected state from the harness's knowledge of what it wrote. Identifier spellings cover "
+        "every family uuid.UUID accepts (dashed lower/upper/mixed, bare 32 hex digits lower/upper/mixed, braced, urn:uuid:). Non-trivial: at least one controller is stored, or the document is legacy/damaged. "
         "Distinct by (controllers, permission multiset size, recorded ids, spellings differing from upper-case canonical, "
         "config number class, hash class) resp. by the document's member set and sizes."
     )
     specs = gen_specs(ctx)
     lines, impls = [], []
     for i, sp in enumerate(specs):
-        line, impl, fail = run_state_case(ctx, sp, i)
+        try:
+            line, impl, fail = run_state_case(ctx, sp, i)
+        except Exception as ex:  # noqa: BLE001  (never an infrastructure failure: what the implementation did is an observation)
+            _observed_exception(ctx, "state-case", {"spec_ops": len(sp["ops"])}, ex)
+            continue
         lines.append(line)
         impls.append(impl)
         s = line["state"]
         if fail:
-            ctx.fail(fail[0], fail[1], {"kind": "state", "spec": sp, "via_add_accessory": i % 16 == 0})
+            if not any(f.signature == fail[0] for f in ctx.failures):
+                small = minimise_state_spec(sp, fail[0], i)
+                f2 = run_state_case(ctx, small, i)[2]
+                ctx.fail(fail[0], (f2[1] if f2 and f2[0] == fail[0] else fail[1]) + f" [history of {len(small['ops'])} request(s), {len(small.get('verifiers', []))} verifying controller(s)]",
+                         {"kind": "state", "spec": small, "via_add_accessory": i % 16 == 0})
             st.hit("outcome", "oracle:" + fail[0])
         n = len(s["paired"])
         canon_ids = sum(1 for u, b in s["u2b"] if bytes.fromhex(b).decode("utf-8", "replace") != str(uuidlib.UUID(int=int(u))).upper())
@@ -692,12 +765,16 @@ def run(ctx: Ctx):
             st.hit("outcome", "state/recorded-ids-of-unpaired-controllers")
     docs = gen_docs(ctx)
     dlines, dimpls = [], []
-    for d, kind in docs:
-        line, impl, fail = run_doc_case(d, kind)
+    for d, kind, exp in docs:
+        try:
+            line, impl, fail = run_doc_case(d, kind, exp)
+        except Exception as ex:  # noqa: BLE001
+            _observed_exception(ctx, "document-case", {"members": sorted(d), "kind": kind}, ex)
+            continue
         dlines.append(line)
         dimpls.append(impl)
         if fail:
-            ctx.fail(fail[0], fail[1], {"kind": "doc", "doc": d, "doc_kind": kind})
+            ctx.fail(fail[0], fail[1], {"kind": "doc", "doc": d, "doc_kind": kind, "expected": exp})
             st.hit("outcome", "oracle:" + fail[0])
         legacy = "client_properties" not in d
         ucount = len(d.get("client_uuid_to_bytes") or [])
@@ -728,10 +805,23 @@ def run(ctx: Ctx):
         if m != impl:
             ctx.disagree("encoder/load-document", {"doc": _short(ln["doc"])}, _short(m), _short(impl))
     run_histories(ctx)
-    st.sample({"state": _short_state(lines[1]["state"]), "file_tree": _short(impls[1]["doc"]), "model_agrees": canon_model_roundtrip(model[1]) == {k: impls[1][k] for k in ("doc", "loaded")}})
-    st.sample({"state": _short_state(lines[-1]["state"]), "pair_verify_before_after": impls[-1].get("pair_verify"),
-               "model_agrees": canon_model_roundtrip(model[len(lines) - 1]) == {k: impls[-1][k] for k in ("doc", "loaded")}})
-    st.sample({"legacy_doc_members": sorted(docs[0][0]), "impl": _short(dimpls[0]), "model_agrees": model[len(lines)] == dimpls[0]})
+    if len(lines) > 1:
+        st.sample({"state": _short_state(lines[1]["state"]), "file_tree": _short(impls[1]["doc"]), "model_agrees": canon_model_roundtrip(model[1]) == {k: impls[1][k] for k in ("doc", "loaded")}})
+        st.sample({"state": _short_state(lines[-1]["state"]), "pair_verify_before_after": impls[-1].get("pair_verify"),
+                   "model_agrees": canon_model_roundtrip(model[len(lines) - 1]) == {k: impls[-1][k] for k in ("doc", "loaded")}})
+    if dlines:
+        st.sample({"authored_legacy_doc": _short(dlines[9 if len(dlines) > 9 else 0]["doc"]), "impl": _short(dimpls[9 if len(dlines) > 9 else 0]),
+                   "model_agrees": model[len(lines) + (9 if len(dlines) > 9 else 0)] == dimpls[9 if len(dlines) > 9 else 0]})
+
+
+def _observed_exception(ctx: Ctx, where: str, case, ex: BaseException):
+    """An exception escaped while driving / observing the implementation: record it as a disagreement
+    (the model predicts none) instead of aborting the run."""
+    import traceback
+
+    tb = traceback.format_exception(type(ex), ex, ex.__traceback__)
+    ctx.stats.hit("outcome", f"exception-observed/{where}/{type(ex).__name__}")
+    ctx.disagree(f"exception/{where}", case, "no exception", "".join(tb)[-700:])
 
 
 def _short_state(s):
@@ -749,15 +839,24 @@ def search(ctx: Ctx):
     ctx.tier = "thorough"
     try:
         for i, sp in enumerate(gen_specs(ctx)[:2500]):
-            fail = run_state_case(ctx, sp, i)[2]
+            try:
+                fail = run_state_case(ctx, sp, i)[2]
+            except Exception:  # noqa: BLE001
+                continue
             if fail:
                 ctx.fail(fail[0], fail[1], {"kind": "state", "spec": sp, "via_add_accessory": i % 16 == 0})
-        for d, kind in gen_docs(ctx)[:800]:
-            fail = run_doc_case(d, kind)[2]
+        for d, kind, exp in gen_docs(ctx)[:800]:
+            try:
+                fail = run_doc_case(d, kind, exp)[2]
+            except Exception:  # noqa: BLE001
+                continue
             if fail:
-                ctx.fail(fail[0], fail[1], {"kind": "doc", "doc": d, "doc_kind": kind})
+                ctx.fail(fail[0], fail[1], {"kind": "doc", "doc": d, "doc_kind": kind, "expected": exp})
         for ops in boundary_histories(ctx) + [gen_history(ctx) for _ in range(2500)]:
-            fail = run_history(ops, collect=False)[2]
+            try:
+                fail = run_history(ops, collect=False)[2]
+            except Exception:  # noqa: BLE001
+                continue
             if fail:
                 record_history_failure(ctx, ops, fail)
     finally:
@@ -776,7 +875,7 @@ def replay(ctx: Ctx, r):
             print(f"  {desc} -> save {'completed, file checked by a fresh load' if t[1] else 'not requested'}; controllers={t[2]} recorded ids={t[3]}")
         fail = fail[:2] if fail else None
     elif r.get("kind") == "doc":
-        line, impl, fail = run_doc_case(r["doc"], r.get("doc_kind", "damaged"))
+        line, impl, fail = run_doc_case(r["doc"], r.get("doc_kind", "damaged"), r.get("expected"))
         print("document members:", sorted(r["doc"]), "->", _short(impl))
     else:
         print("replay file records a broken proof obligation / correspondence stream, not an input:")
